@@ -129,4 +129,19 @@ void* vp_split(void* pool, void* fBlock, int num, unsigned long size, int blockI
 }
 void vp_fb_set_sizetmp(void* fb, unsigned long sz) { ((FreeBlock*)fb)->sizeTmp = sz; }
 unsigned long vp_fb_min() { return FreeBlock::minBlockSize; }
+
+// ---- translator validation vectors (pure arithmetic only: nothing that reaches a cut function)
+void vp_selftest() {
+  unsigned long v[] = {8, 63, 64, 4096, 8191, 8192, 8193, 16384, 100000, 1048575, 1048576, 4194303, 4194304, 8388607, 8388608, 8388609, 9437184,
+                       16777216, 123456789, 1ul << 32, (1ul << 40) - 1, 1ul << 40, (1ul << 40) + 1, 1ul << 50, (1ul << 63) + 5, ~0ul - (1ul << 60), ~0ul - 4096, ~0ul};
+  for (unsigned long s : v) {
+    unsigned long a = LargeObjectCache::alignToBin(s);
+    vp_emit(a); vp_emit((unsigned long)Backend::sizeToBin(s)); vp_emit((unsigned long)Backend::sizeToBin(a));
+    if (a >= 8192 && a < LargeObjectCache::maxHugeSize && a >= s) vp_emit((unsigned long)LargeObjectCache::sizeToIdx(a));
+    vp_emit(alignUpGeneric(s, 4096)); vp_emit(alignUpGeneric(s, 3000));
+  }
+  for (unsigned s = 1; s <= 8128; s += 97) vp_emit(getObjectSize(s));
+  vp_emit(vp_idx_make(5, 1, 77)); vp_emit(vp_idx_invalid()); vp_emit(vp_idx_offset(vp_idx_make(5, 1, 77))); vp_emit(vp_idx_is_large(vp_idx_make(5, 0, 77)));
+  vp_emit(sizeof(MemoryPool)); vp_emit(sizeof(LargeMemoryBlock)); vp_emit(sizeof(MemRegion)); vp_emit(sizeof(FreeBlock)); vp_emit(sizeof(LastFreeBlock)); vp_emit(sizeof(BackRefBlock)); vp_emit(BackRefMain::dataSz); vp_emit(BR_MAX_CNT);
+}
 }
